@@ -20,7 +20,9 @@ META = {
                   'message_le_508, truncation_on_char_boundary (+ description_kept_when_it_fits, truncation_minimal), '
                   'message_fields (the Spec\'s own UTF-8 decoder and JSON reader recover exactly the identity, the port and the '
                   'description sent from the produced bytes), disabled_iff_identity_too_long, answers_iff_discover, '
-                  'responder_total, run_satisfies_spec (the whole run meets the monitor `RunOK`), announced_ports_are_served (every '
+                  'responder_total, unreachable_sender_survived, later_requests_answered (for every send oracle: a request whose '
+                  'sender cannot be answered - sendto raises, e.g. source port 0 - sends nothing and does not end the loop), '
+                  'run_satisfies_spec (the whole run meets the monitor `RunOK`), announced_ports_are_served (every '
                   'round of every run of Server.run, any restarts and start failures: announceable ports were bound by TCP '
                   'interfaces started in that round), one_responder_per_round.  The model is tied to '
                   'frappy/protocol/discovery.py by regenerated tables (limit, recvfrom size, message skeleton, except clause) and a '
@@ -32,7 +34,8 @@ META = {
         'json.loads(bytes.decode("utf-8")) raises only UnicodeDecodeError, json.JSONDecodeError or another ValueError on datagrams '
         'of at most 1024 bytes (checked on every generated datagram; RecursionError is not reachable at this size on CPython 3.12)',
         'the decision "this datagram is a JSON object with member SECoP" is json.loads\' (the Lean side receives the decoded shape)',
-        'socket.sendto does not raise (an OSError from sendto would end the responder thread; not part of the statement)',
+        'socket.sendto to a sender either fails at the first message of the batch or not at all (the send oracle sendOk is a '
+        'function of the address); the start-up broadcast to 255.255.255.255 does not raise',
         'TCP ports are at most 65535 (hypothesis of message_le_508: a port the node really listens on)',
     ],
     'modelled_not_verified': [
@@ -91,6 +94,9 @@ class FakeSock:
         return dg[:n], addr
 
     def sendto(self, msg, addr):
+        if addr[1] == 0:
+            # what the operating system does for a datagram that came with source port 0
+            raise OSError(22, 'Invalid argument')
         (self.per_dg[-1] if self.per_dg else self.announce).append((bytes(msg), addr))
         return len(msg)
 
@@ -117,7 +123,12 @@ class Log:
         return self
 
 
+UNREACHABLE_FROM = 200     # sender indices from here on stand for senders that cannot be answered (source port 0)
+
+
 def addr_of(i):
+    if i >= UNREACHABLE_FROM:
+        return ('10.0.1.%d' % (i % 250 + 1), 0)
     return ('10.0.0.%d' % (i % 250 + 1), 40000 + i)
 
 
@@ -230,11 +241,13 @@ def requests_for(case, obs, bufsize):
     node = dict(node_json(case), p='C19')
     received = [{'addr': a, 'dec': d} for (_, a), d in zip(case['dgs'], decs)]
     steps = [{'addr': r['addr'], 'dec': r['dec'], 'sends': s} for r, s in zip(received, obs['steps'])]
+    unreachable = sorted({a for _, a in case['dgs'] if a >= UNREACHABLE_FROM})
     return [
         dict(base, k='construct'),
         dict(node, k='judge_listener', enabled=obs['enabled'], sent_desc=cps(obs['desc'])),
-        dict(base, k='run', startup=case['startup'], events=events),
-        dict(node, k='judge_run', startup=case['startup'], received=received, announce=obs['announce'], steps=steps),
+        dict(base, k='run', startup=case['startup'], events=events, unreachable=unreachable),
+        dict(node, k='judge_run', startup=case['startup'], received=received, announce=obs['announce'], steps=steps,
+             unreachable=unreachable),
     ], decs
 
 
@@ -246,6 +259,8 @@ def model_obs_run(ans):
     outs = []
     for o in ans['outcomes']:
         if o == 'ignored':
+            outs.append([])
+        elif o == 'unanswerable':
             outs.append([])
         elif o == 'died':
             outs.append('died')
@@ -459,7 +474,8 @@ def rand_sequence(rng, big):
             kind = 'hostile:' + kind
         else:
             kind, dg = rand_datagram(rng)
-        out.append((kind, dg, rng.randint(1, 4)))
+        sender = rng.randint(1, 4) if rng.random() < 0.85 else rng.choice([200, 201])     # some cannot be answered
+        out.append((kind + (':unanswerable-sender' if sender >= UNREACHABLE_FROM else ''), dg, sender))
     out.append(('request:final', VALID, rng.randint(1, 4)))      # liveness: a request after everything else
     return out
 
@@ -540,6 +556,8 @@ SERVER_CATALOGUE = [
     {'ifaces': ['free', 'free'], 'rounds': [[], [1], []]},            # a port is taken during the restart, later free again
     {'ifaces': ['free', 'free', 'free'], 'rounds': [[2], [0], [1, 2]]},
     {'ifaces': ['free', 'zero'], 'rounds': [[], [0]]},                # tcp://0: the system chooses the port
+    # before the probes of each round a request with source port 0 arrives over the real socket (it cannot be answered)
+    {'ifaces': ['free', 'free'], 'rounds': [[], []], 'spoof': True},
 ]
 
 
@@ -580,7 +598,7 @@ def server_requests(obs):
 
 
 def evaluate_server(ctx, case):
-    obs = c19_server.impl_server({'ifaces': case['ifaces'], 'rounds': case['rounds']})
+    obs = c19_server.impl_server({'ifaces': case['ifaces'], 'rounds': case['rounds'], 'spoof': case.get('spoof', False)})
     ans = ctx.driver.batch(server_requests(obs))
     for x in ans:
         if 'driver_error' in x:
@@ -627,6 +645,7 @@ def run_server_part(ctx, res):
         res.traces += len(v['verdicts'])
         res.count('server.runs')
         res.count('server.rounds', len(v['verdicts']))
+        res.count('server.rounds.with-unanswerable-request-over-raw-socket', sum(1 for r in obs['rounds'] if r.get('spoofed')))
         for r in obs['rounds']:
             if not r.get('ended'):
                 res.count('server.round.failed-starts=%d' % (len(r['configured']) - len(r['reported'])))
